@@ -755,6 +755,56 @@ def twin_fill_case(draw, tier='quick', mirrors=False):
             'box': W * 1.15, 'pseed': draw(st.integers(0, 2 ** 31 - 1))}
 
 
+@st.composite
+def neg_universe_case(draw, tier='quick'):
+    """A universe one of whose cells is declared with a negative universe
+    number (u=-n: "not cut by the boundary of the filled cell").  The hint is
+    only legal when true, so that cell is a small sphere about the origin of
+    the universe and every container is a larger sphere about the point where
+    the fill transformation puts that origin."""
+    b = Builder(draw, tier, {'lattice': False})
+    d = draw
+    world = b.add_surf('so', [6.0])
+    u = b.new_uid()
+    r_in = d(st.sampled_from([0.5, 0.7, 0.9]))
+    s_in = b.add_surf('so', [r_in])
+    extra = b.add_surf(d(st.sampled_from(['px', 'py', 'pz'])), [0.0])
+    ca, cb, cc = b.new_cid(), b.new_cid(), b.new_cid()
+    ma, mb, mc = b.material(), b.material(), b.material()
+    neg_which = d(st.sampled_from(['inner', 'inner', 'all']))
+    cells_u = [md.cell(ca, ma[0], ma[1], md.S(-s_in), imp={'n': 1}, u=u),
+               md.cell(cb, mb[0], mb[1], md.AND(md.S(s_in), md.S(extra)),
+                       imp={'n': 1}, u=u),
+               md.cell(cc, mc[0], mc[1], md.AND(md.S(s_in), md.S(-extra)),
+                       imp={'n': 1}, u=u)]
+    cells_u[0]['u_neg'] = True
+    b.labels.add('negative-universe')
+    n = d(st.integers(1, 2))
+    centres = [[-2.5, 0.0, 0.0], [2.5, 0.5, 0.0]][:n]
+    if n == 1 and d(st.booleans()):
+        centres = [[0.0, 0.0, 0.0]]
+    conts = []
+    for ck in centres:
+        sc = b.add_surf('s', [float(v) for v in ck] + [1.8])
+        tr = None
+        if any(ck):
+            tr = {'inline': md.trspec(ck, None, n_entries=3)}
+        elif d(st.booleans()):
+            tr = {'inline': md.trspec(ck, None, n_entries=3)}
+        conts.append((sc, md.cell(b.new_cid(), 0, None, md.S(-sc),
+                                  imp={'n': 1}, fill={'u': u, 'tr': tr})))
+    rest = md.cell(b.new_cid(), 0, None,
+                   md.AND(md.S(-world), *[md.S(sc) for sc, _c in conts]),
+                   imp={'n': 1})
+    gy = md.cell(b.new_cid(), 0, None, md.S(world), imp={'n': 0})
+    cards = cells_u + [c for _s, c in conts] + [rest, gy]
+    if d(st.booleans()):
+        cards = [cards[o] for o in d(st.permutations(list(range(len(cards)))))]
+    b.deck['cells'] = cards
+    return {'deck': b.deck, 'labels': sorted(b.labels), 'tier': tier,
+            'box': 6.9, 'pseed': draw(st.integers(0, 2 ** 31 - 1))}
+
+
 # --------------------------------------------------------------------------
 # hexagonal lattices (LAT=2)
 # --------------------------------------------------------------------------
